@@ -48,6 +48,11 @@ inductive Cb where
   | trigGet (r : ResId)      -- BaseResource._trigger_get
   deriving DecidableEq, Inhabited, Repr
 
+/-- is this callback a `Process._resume`? -/
+def Cb.isResume : Cb → Bool
+  | .resume _ => true
+  | _ => false
+
 inductive Kind where
   | plain
   | timeout
